@@ -287,11 +287,13 @@ class Channel:
         """returns (fin: {j: path}, tmp: [j...], strays)"""
         base = self.chdir(d)
         fin, tmp = {}, []
-        for sub in sorted(os.listdir(base)):
-            sp = os.path.join(base, sub)
+        for sub in [""] + sorted(os.listdir(base)):      # "": a data file directly in the channel directory
+            sp = os.path.join(base, sub) if sub else base
             if not os.path.isdir(sp):
                 continue
             for f in sorted(os.listdir(sp)):
+                if sub == "" and not (RE_FINAL.match(f) or f.startswith("tmp.rf@")):
+                    continue
                 m = RE_FINAL.match(f)
                 if m:
                     t = int(m.group(1)) * 1000 + int(m.group(2))
